@@ -212,6 +212,9 @@ def create_for_folder_subcommand(
 
     if not os.path.isabs(root_path):
         root_path = os.path.join(os.getcwd(), root_path)
+    # "dir//" names the folder "dir": the history forms its paths from the folder name without trailing separators,
+    # so the traversal below has to start from the same spelling or every recorded path is reported as missing
+    root_path = root_path.rstrip(os.sep) or os.sep
 
     logger.verbose(f"Creating new generation for folder at path: {root_path} ...")
 
@@ -606,6 +609,9 @@ def verify_entire_folder(
 
     if not os.path.isabs(root_path):
         root_path = os.path.join(os.getcwd(), root_path)
+    # "dir//" names the folder "dir": the history forms its paths from the folder name without trailing separators,
+    # so the traversal below has to start from the same spelling or every recorded path is reported as missing
+    root_path = root_path.rstrip(os.sep) or os.sep
 
     if single_file is not None and not os.path.isabs(single_file):
         single_file = os.path.join(root_path, single_file)
@@ -1044,6 +1050,9 @@ def diff_entire_folder_against_full_history_subcommand(root_path, verbose, ignor
 
     if not os.path.isabs(root_path):
         root_path = os.path.join(os.getcwd(), root_path)
+    # "dir//" names the folder "dir": the history forms its paths from the folder name without trailing separators,
+    # so the traversal below has to start from the same spelling or every recorded path is reported as missing
+    root_path = root_path.rstrip(os.sep) or os.sep
 
     logger.verbose(f"check folder at path: {root_path}")
 
